@@ -143,6 +143,14 @@ fn check_mirror(src: &str, factor: f64, st: &mut Stats) -> Result<Option<(Vec<FI
     let exp_meta: BTreeMap<String, String> = core.metadata.map.iter().filter_map(|(k, v)| Some((k.as_str()?.to_string(), v.as_str()?.to_string()))).collect();
     let got_meta: BTreeMap<String, String> = ffi.metadata.iter().map(|(k, v)| (k.clone(), v.clone())).collect();
     vensure!(exp_meta == got_meta, "c19.metadata", "metadata {got_meta:?} vs core string entries {exp_meta:?}; source {src:?}");
+    // the metadata-only FFI entry point gives the same map
+    match guard(|| cooklang_bindings::parse_metadata(src.to_string(), factor)) {
+        Ok(m) => {
+            let only: BTreeMap<String, String> = m.into_iter().collect();
+            vensure!(only == exp_meta, "c19.metadata", "parse_metadata() gives {only:?}, the core string entries are {exp_meta:?}; source {src:?}");
+        }
+        Err(p) => vbail!("c19.panic.parse_metadata", "the FFI parse_metadata panicked on an input the canonical parser accepts: {p}; source {src:?}"),
+    }
     st.class_if(!core.cookware.is_empty(), "has-cookware");
     st.class_if(!core.timers.is_empty(), "has-timer");
     st.class_if(core.sections.len() > 1, "multi-section");
